@@ -412,6 +412,15 @@ func TestC07(t *testing.T) {
 		if v := c07Judge(c, res); v != "" {
 			rt.Fatalf("C07 violated by %v: %s", c, v)
 		}
+		if rapid.IntRange(0, 5).Draw(rt, "reuseInstance") == 0 {
+			forceOp = c.op
+			other := c07Gen(rt)
+			forceOp = ""
+			ev.Class("C07", "instance-reused")
+			if d := reuseDifferential(c.op, c.node, other.inputs(), c.inputs()); d != "" {
+				rt.Fatalf("C07 violated by %v after the same operator instance served %v: %s", c, other, d)
+			}
+		}
 		if _, enc := onnxTypeOf[c.x.Dtype()]; enc && rapid.IntRange(0, 4).Draw(rt, "modelLevel") == 0 {
 			mres := runSingleNodeModel(c.node, c.inputs(), 1)
 			ev.Class("C07", "model-level")
